@@ -175,6 +175,7 @@ pzgstrf_column_dfs(
 #endif		    
 		}
 		
+		SLU_MT_VERIF_EVENT(SLU_EV_DFS_SNODE, pnum, jcol, krep, ispruned[krep], 0);
 		do {
 		    /* 
 		     * For each unmarked kchild of krep ...
@@ -227,6 +228,7 @@ pzgstrf_column_dfs(
 					Gstat->procstat[pnum].unpruned++;
 #endif		    
 				    }
+				    SLU_MT_VERIF_EVENT(SLU_EV_DFS_SNODE, pnum, jcol, krep, ispruned[krep], 0);
 				}
 			    } /* else */
 			} /* if */
@@ -236,6 +238,7 @@ pzgstrf_column_dfs(
 		     *    place supernode-rep krep in postorder DFS,
 		     *    backtrack dfs to its parent.
 		     */
+		    SLU_MT_VERIF_EVENT(SLU_EV_DFS_LEAVE, pnum, jcol, krep, 0, 0);
 		    segrep[*nseg] = krep;
 		    ++(*nseg);
 #if ( DEBUGlevel>=3 )
@@ -303,6 +306,7 @@ pzgstrf_column_dfs(
 				  pxgstrf_shared)))
 	    return mem_error;
 	xlsub[jcol] = ito;
+	SLU_MT_VERIF_EVENT(SLU_EV_SUPER_OPEN, pnum, jcol, nsuper, ito, 0);
 	lsub = Glu->lsub;
 	for (ifrom = 0; ifrom < nextl; ++ifrom) {
 	    krow = col_lsub[ifrom];
@@ -317,6 +321,7 @@ pzgstrf_column_dfs(
 	    lsub[k++] = lsub[ifrom];
 	
     } else { /* Supernode of size > 1: overwrite column jcol-1 */
+	SLU_MT_VERIF_EVENT(SLU_EV_SUPER_JOIN, pnum, jcol, nsuper, fsupc, 0);
 	k = xlsub_end[fsupc];
 	xlsub[jcol] = k;
 	xprune[fsupc] = k;
